@@ -4,7 +4,7 @@ from __future__ import annotations
 import ast
 from typing import List, Optional
 
-from vlib import match, source, sub
+from vlib import flow, match, source, state, sub
 from vlib.source import AnalysisError, call_name, dotted, last_attr, short
 
 GRAPH = "python/experiment/model/graph.py"
@@ -75,6 +75,96 @@ def find_registrations(fn: ast.AST) -> List[Registration]:
     return out
 
 
+def check_value_afresh(ctx, g, resolve_args: ast.AST) -> None:
+    """R7: the value substituted for a reference is that reference's value *now*."""
+    from vlib.cfg import CFG, own_calls
+    rule = "C10.R7-value-computed-afresh"
+    resolve = g.func("DataReference.resolve")
+    ctx.analysed(resolve)
+    n_nodes = 0
+    for f, allowed in ((resolve, ()), (resolve_args, ())):
+        eff = state.nonlocal_effects(f)
+        n_nodes += sum(1 for _ in ast.walk(f))
+        ctx.ob(rule, eff[0] if eff else f, not eff,
+               "%s stores nothing that outlives the call" % f.name if not eff else
+               "%s keeps state between calls (%s): a value (path, or contents of an :output file) remembered from an earlier "
+               "resolution is substituted after the producer rewrote the file, so the command line no longer carries the "
+               "contents of the referenced file" % (f.name, short(eff[0], 80)), construct="%s is stateless" % f.name)
+    ctx.floor(rule, n_nodes, 300, "AST nodes of resolve/resolveArguments inspected")
+
+    # the :output branch: the test comparing <..>.method with <..>.Output
+    def is_output_test(t: ast.AST) -> Optional[str]:
+        parts = match.compare_parts(t)
+        if not parts:
+            return None
+        l, op, r = parts
+        if not isinstance(op, (ast.Eq, ast.NotEq, ast.Is, ast.IsNot)):
+            return None
+        sides = (l, r)
+        if any(isinstance(x, ast.Attribute) and x.attr == "Output" for x in sides) and any(isinstance(x, ast.Attribute) and x.attr == "method" for x in sides):
+            return "T" if isinstance(op, (ast.Eq, ast.Is)) else "F"
+        return None
+    cfg = CFG(resolve)
+    ctx.paths += cfg.paths_count()
+    tests = match.test_nodes(cfg, is_output_test)
+    ctx.require(bool(tests), "anchor missing: the test of the reference method against DataReference.Output in DataReference.resolve")
+    rets = [n for n in cfg.nodes if n.kind == "stmt" and isinstance(n.ast, ast.Return) and n.ast.value is not None
+            and match.only_via_edges(cfg, n, tests)]
+    ctx.floor(rule, len(rets), 1, "return statements of the :output branch of DataReference.resolve")
+
+    def opened_handles() -> dict:
+        out = {}
+        for w in source.walk_own(resolve):
+            if isinstance(w, ast.With):
+                for it in w.items:
+                    if isinstance(it.context_expr, ast.Call) and (call_name(it.context_expr) or "").split(".")[-1] == "open" \
+                            and isinstance(it.optional_vars, ast.Name):
+                        out.setdefault(it.optional_vars.id, []).append(w)
+        return out
+    handles = opened_handles()
+    PURE_STR = {"decode", "rstrip", "strip", "lstrip", "encode"}
+    for rn in rets:
+        bad = None
+        ok = False
+        seen = set()
+        work = [(rn.id, rn.ast.value)]
+        n_leaves = 0
+        while work and bad is None:
+            here, e = work.pop()
+            if (here, id(e)) in seen:
+                continue
+            seen.add((here, id(e)))
+            if isinstance(e, ast.Call) and isinstance(e.func, ast.Attribute) and e.func.attr in PURE_STR:
+                work.append((here, e.func.value))
+                continue
+            if isinstance(e, ast.Call) and isinstance(e.func, ast.Attribute) and e.func.attr == "read" \
+                    and isinstance(e.func.value, ast.Name) and e.func.value.id in handles:
+                if any(x is e for w in handles[e.func.value.id] for x in ast.walk(w)):
+                    n_leaves += 1
+                    continue
+                bad = "%s is read outside the with-block that opens it" % e.func.value.id
+                break
+            if isinstance(e, ast.Name):
+                rd = flow.reaching_defs(cfg, e.id, ignore_labels=()).get(here, frozenset())
+                if -1 in rd or not rd:
+                    bad = "'%s' may be undefined or a parameter here" % e.id
+                    break
+                for d in rd:
+                    v = flow.def_value(cfg, d, e.id)
+                    if v is None:
+                        bad = "'%s' is not defined by a plain assignment (%s)" % (e.id, short(cfg.nodes[d].ast, 50))
+                        break
+                    work.append((d, v))
+                continue
+            bad = "%s is not the contents just read" % short(e, 60)
+        ok = bad is None and n_leaves > 0
+        ctx.ob(rule, rn.ast, ok,
+               "the :output value returned is <handle>.read() of a file opened in this call (through decode/strip only)" if ok else
+               "the value returned for an :output reference is not, on every path, what was just read from the referenced file (%s): "
+               "a rewrite of the file between two resolutions (same time stamp, or between the read and the bookkeeping) leaves the "
+               "old contents on the command line" % bad, construct="return of the :output branch <- read() in this call")
+
+
 def run(ctx) -> None:
     from vlib.cfg import CFG, own_calls
     ctx.explanation = (
@@ -95,6 +185,9 @@ def run(ctx) -> None:
              "with its backslashes escaped), never as a replacement *template* in which \\1, \\g<0>, \\n are interpreted")
     ctx.rule("C10.R6-no-rescan", "text inserted for one reference is never scanned for the other references: the string that is "
              "searched/rewritten is not modified inside the loop over the references (substitution in one pass)")
+    ctx.rule("C10.R7-value-computed-afresh", "DataReference.resolve and resolveArguments remember nothing between calls (no store into "
+             "the reference, its class or a module global; no memoising decorator), and what resolve returns for an :output "
+             "reference is, on every path, the result of reading the referenced file in this very call")
     ctx.assume("look-around anchors with a class containing \\w . # / are accepted as strong boundaries")
 
     g = ctx.repo.module(GRAPH)
@@ -313,6 +406,8 @@ def run(ctx) -> None:
                "stage0.A and stage1.A, so with references [stage0.A:ref, stage1.A:ref] and arguments '-a stage0.A:ref -b A:ref' "
                "the occurrence that belongs to stage1.A gets stage0.A's value (declaration-order dependent)",
                construct=short(u, 100) + " <- absolute spelling absent")
+
+    check_value_afresh(ctx, g, fn)
 
     if ctx.tier == "thorough":
         # information only: the same idiom elsewhere in the repository (outside the property's scope)
